@@ -44,7 +44,7 @@ def run(ck):
 # ---------------------------------------------------------------- transport adapters
 import trgen as T
 
-RELEASE_RULE = ("1-3 real clients of mixed transports (RTSP/TCP, RTSP/UDP, ws-rtsp, WSP, HTTP-FLV, ws-FLV) attach to a registered "
+RELEASE_RULE = ("1-3 real clients of mixed transports (RTSP/TCP, RTSP/UDP, multicast, ws-rtsp, WSP, HTTP-FLV, ws-FLV) attach to a registered "
                 "media.Stream at scripted positions of a 4-14 packet script, some stop mid-stream (TEARDOWN or dropped connection), "
                 "then the stream ends (Close / replaced / idle); after every event: stream.ConsumerCount, the active RTSP / FLV / WSP "
                 "connection counters relative to their values before the first attach, which connections have ended (EOF at the "
@@ -53,11 +53,11 @@ RELEASE_RULE = ("1-3 real clients of mixed transports (RTSP/TCP, RTSP/UDP, ws-rt
 def transport_release(ck):
     rng = ck.rng
     n = 900 if ck.thorough else 70
-    pool = [T.TCP, T.TCP, T.UDP, T.WSRTSP, T.WSP, T.HTTPFLV, T.WSFLV]
+    pool = [T.TCP, T.TCP, T.UDP, T.WSRTSP, T.WSP, T.HTTPFLV, T.WSFLV, T.MCAST]
     cases = [T.gen_case(rng, False, pool, max_pkts=10, allow_big=False) for _ in range(n)]
     ck.stream("transport-release", cases, None, "C03_transports", "C03_wire_ok", compare=False,
               nontrivial=lambda c: len(c[2]) >= 2 or any(e[0] == 2 for e in c[3]),
-              sig=lambda c, e, o: "release-" + "-".join(sorted({str(cl[0]) for cl in c[2]})), timeout=1500)
+              sig=lambda c, e, o: "transport-release", timeout=1500)
 
 
 # ---------------------------------------------------------------- conversion goroutines
